@@ -31,12 +31,13 @@ type isoFault struct {
 	Pos  int    `json:"pos"`
 }
 type isoCase struct {
-	Conns  int        `json:"conns"`
-	Msgs   int        `json:"msgs"`
-	Faults []isoFault `json:"faults"`
-	Temps  []int      `json:"temps"`
-	SM     bool       `json:"sm"`
-	DefMux bool       `json:"defmux"` // the Server has no Handler of its own: diam.DefaultServeMux serves and reports
+	Conns     int        `json:"conns"`
+	Msgs      int        `json:"msgs"`
+	Faults    []isoFault `json:"faults"`
+	Temps     []int      `json:"temps"`
+	SM        bool       `json:"sm"`
+	DefMux    bool       `json:"defmux"`    // the Server has no Handler of its own: diam.DefaultServeMux serves and reports
+	Undrained bool       `json:"undrained"` // nobody reads the error reports (runIsolationUndrained)
 }
 type isoConn struct {
 	Msgs     int      `json:"msgs"`
@@ -374,7 +375,9 @@ func Isolation(a Args) error {
 		}
 		id++
 		os.WriteFile(a.Out+".current", line, 0644)
-		if hasTLSFault(c.Faults) {
+		if c.Undrained {
+			out.Emit(runIsolationUndrained(id))
+		} else if hasTLSFault(c.Faults) {
 			var kinds []string
 			for _, f := range c.Faults {
 				kinds = append(kinds, f.Kind)
@@ -388,4 +391,90 @@ func Isolation(a Args) error {
 		out.mu.Unlock()
 		return nil
 	})
+}
+
+// runIsolationUndrained: nobody reads the error reports, a handler is still running on connection 1, two other
+// connections send undecodable input one after the other (the second report finds the slot occupied and is
+// dropped, by design), then a fourth connection sends a request: it is served while the handler on connection 1
+// is still running, and the faulty connections are closed.
+func runIsolationUndrained(id int) isoLine {
+	none := isoFault{Kind: "none"}
+	c := isoCase{Conns: 4, Msgs: 1, Faults: []isoFault{none, {Kind: "bad", Pos: 1}, {Kind: "bad", Pos: 1}, none}, Temps: []int{0, 0, 0, 0, 0}, Undrained: true}
+	l := isoLine{Ev: "iso", ID: id, Case: c, Conns: []isoConn{}, Note: "undrained"}
+	hold := make(chan struct{})
+	holding := make(chan struct{}, 1)
+	mux := diam.NewServeMux()
+	mux.HandleFunc("CCR", func(dc diam.Conn, m *diam.Message) {
+		if m.Header.EndToEndID == 0xB0B0B0B0 {
+			holding <- struct{}{}
+			<-hold
+		}
+		a := m.Answer(2001)
+		for _, av := range m.AVP {
+			a.AddAVP(av)
+		}
+		a.WriteTo(dc)
+	})
+	ln := memnet.NewListener()
+	served := make(chan struct{})
+	go func() {
+		(&diam.Server{Handler: mux, Dict: dict.Default}).Serve(ln)
+		close(served)
+	}()
+	conns := make([]*memnet.Conn, 4)
+	for k := range conns {
+		conns[k] = memnet.NewConn()
+		ln.Push(conns[k])
+	}
+	mk := func(k int, e2e uint32) []byte {
+		body := rawAVP(25, 0x40, 0, 8+200, bytes.Repeat([]byte{byte(16*(k+1) + 1)}, 200), true)
+		h := diam.Header{Version: 1, MessageLength: uint32(20 + len(body)), CommandFlags: 0x80, CommandCode: 272, ApplicationID: 4, HopByHopID: 1, EndToEndID: e2e}
+		return append(h.Serialize(), body...)
+	}
+	conns[0].Feed(mk(0, 0xB0B0B0B0))
+	select {
+	case <-holding:
+	case <-time.After(2 * time.Second):
+	}
+	conns[1].Feed(cnBad())
+	conns[1].WaitClosed(2 * time.Second)
+	conns[2].Feed(cnBad())
+	conns[2].WaitClosed(2 * time.Second)
+	time.Sleep(5 * time.Millisecond)
+	conns[3].Feed(mk(3, 1))
+	conns[3].WaitOut(20, 2*time.Second) // served while the handler of connection 1 is still running
+	early := len(conns[3].Out()) >= 20
+	close(hold)
+	conns[0].WaitOut(20, 2*time.Second)
+	time.Sleep(5 * time.Millisecond)
+	for k := range conns {
+		ic := isoConn{Msgs: 1, Fault: c.Faults[k], Answered: []int{}, Intact: true, Closed: conns[k].Closed()}
+		msgs, _ := splitMsgs(conns[k].Out())
+		for _, m := range msgs {
+			if m.Cmd == 272 && m.Flags&0x80 == 0 {
+				ic.Answered = append(ic.Answered, int(m.HbH))
+			}
+		}
+		if k == 3 && !early {
+			ic.Answered = []int{} // answered only after the held handler was released: not served in time
+		}
+		l.Conns = append(l.Conns, ic)
+	}
+	l.Accepted = 4
+	select {
+	case <-served:
+		l.ServeReturned = true
+	default:
+	}
+	// the reports were offered to a slot nobody empties: what is in it now
+	select {
+	case <-mux.ErrorReports():
+		l.Reports = 1
+	default:
+	}
+	ln.Close()
+	for _, mc := range conns {
+		mc.Close()
+	}
+	return l
 }
